@@ -152,6 +152,7 @@ Proof.
             then Some (map (fun p => (fst p, 0)) xs)
             else match y with YData yd => seqs_of yd | _ => None end) as [ys|]; [|discriminate].
   destruct (negb _); [discriminate|].
+  match goal with |- context [if negb (initialized n) && ?r then _ else _] => destruct (negb (initialized n) && r) end; [discriminate|].
   match goal with |- context [if initialized n then ROk n else initialize n ?a ?b] =>
     destruct (if initialized n then ROk n else initialize n a b) as [n2|] eqn:E end; [|discriminate].
   destruct (_ && _); [|discriminate].
@@ -754,6 +755,7 @@ Proof.
     destruct (seqs_of x') as [xs|]; [|discriminate].
     match goal with |- context [match ?c with Some ys => _ | None => inr tt end] => destruct c as [ys|] end; [|discriminate].
     destruct (negb _); [discriminate|].
+    match goal with |- context [if negb (initialized n) && ?r then _ else _] => destruct (negb (initialized n) && r) end; [discriminate|].
     match goal with |- context [if initialized n then ROk n else initialize n ?a ?b] =>
       destruct (if initialized n then ROk n else initialize n a b) as [n2|] eqn:E end; [|discriminate].
     apply init_if_needed_teacher in E. destruct (_ && _); [|discriminate]. intro H; inversion H; subst. congruence.
@@ -763,6 +765,7 @@ Proof.
     { revert E. unfold partial_fit_op. destruct (seqs_of x') as [xs|]; [|discriminate].
       match goal with |- context [match ?c with Some ys => _ | None => inr tt end] => destruct c as [ys|] end; [|discriminate].
       destruct (negb _); [discriminate|].
+      match goal with |- context [if negb (initialized n) && ?r then _ else _] => destruct (negb (initialized n) && r) end; [discriminate|].
       match goal with |- context [if initialized n then ROk n else initialize n ?a ?b] =>
         destruct (if initialized n then ROk n else initialize n a b) as [n2|] eqn:E end; [|discriminate].
       apply init_if_needed_teacher in E. destruct (_ && _); [|discriminate]. intro H; inversion H; subst. exact E. }
